@@ -103,9 +103,23 @@ def h_op(env, op="flip", n=3, dtype="float32", input_order="xyz", output_order="
                     tt = n - 1 - tt
             return X(aa, bb, tt)
     elif op == "sort":
-        angles = [env.real("tilt%d" % k, -70, 70) for k in range(n)]
-        env.assume(env.and_(*[env.not_(env.eq(angles[a], angles[b])) for a in range(n) for b in range(a + 1, n)]))
-        tl = objcol(angles) if env.mode == "sym" else np.array(angles)
+        if arg in ("file", "list"):
+            # tilt angles given as a .tlt file in acquisition order (or a plain list): concrete values, order chosen by a solver fork
+            base = [[0.0, 3.0, -3.0, 6.0, -6.0, 9.0, -9.0], [10.5, -20.0, 40.25, 0.5, -40.0, 20.0, 30.0], [-9.0, -6.0, -3.0, 0.0, 3.0, 6.0, 9.0]]
+            pick = env.choice("tiltset", [0, 1, 2])
+            if env.mode == "sym":
+                from sx import core
+                pick = core.concretize(pick) if core.is_sym(pick) else pick
+            angles = base[int(pick)][:n]
+            if arg == "file":
+                tl = env.real_path("stack.tlt")
+                open(tl, "w").write("\n".join("%.2f" % a for a in angles) + "\n")
+            else:
+                tl = list(angles)
+        else:
+            angles = [env.real("tilt%d" % k, -70, 70) for k in range(n)]
+            env.assume(env.and_(*[env.not_(env.eq(angles[a], angles[b])) for a in range(n) for b in range(a + 1, n)]))
+            tl = objcol(angles) if env.mode == "sym" else np.array(angles)
         res = ts.sort_tilts_by_angle(src, tl, output_file=outp, **kw)
         res2 = None
 
@@ -228,6 +242,9 @@ def jobs(tier, seed):
           ("h_op", {"op": "sort", "n": 3, "dtype": "int16", "out_file": True, "input_order": "zyx"}),
           ("h_op", {"op": "remove", "n": 5, "arg": ([2, 5], True, "array"), "dtype": "int16", "out_file": True}),
           ("h_op", {"op": "remove", "n": 4, "arg": ([0, 2], False, "array"), "input_order": "zyx", "output_order": "zyx"}),
+          ("h_op", {"op": "sort", "n": 5, "arg": "file", "out_file": True}), ("h_op", {"op": "sort", "n": 4, "arg": "list", "dtype": "int16", "input_order": "zyx", "output_order": "zyx"}),
+          ("h_op", {"op": "sort", "n": 3, "arg": "file", "via_file": True, "input_order": "zyx"}),
+          ("h_op", {"op": "bin", "n": 2, "arg": 2, "dtype": "int16", "input_order": "xyz", "output_order": "zyx"}), ("h_op", {"op": "bin", "n": 2, "arg": 3, "dtype": "int16", "input_order": "zyx", "output_order": "zyx", "out_file": True}),
           ("h_op", {"op": "split", "n": 7, "dtype": "int16", "out_file": True}), ("h_op", {"op": "split", "n": 3, "via_file": True, "input_order": "zyx"})]
     if tier == "thorough":
         j += [("h_op", {"op": "sort", "n": 4}), ("h_op", {"op": "bin", "n": 2, "arg": 4, "dtype": "int16", "out_file": True}),
